@@ -6,6 +6,7 @@ CONSTANTS
   AsFoundNoFinalFlush = FALSE
   AsFoundDeferredLine = TRUE
 INVARIANT OutIsResult
+INVARIANT CommitOncePerStatement
 INVARIANT NoLossNoDup
 INVARIANT KindsMirror
 INVARIANT DocAttached
